@@ -229,6 +229,41 @@ class ChunkIO(RuleBasedStateMachine):
                for a in range(3)):
             self.flags.add("border_chunk")
 
+    @rule(s=st.integers(0, 2), seed=st.integers(0, 10 ** 6))
+    @logged
+    def fill_scale(self, s, seed):
+        """Write every chunk of a scale that has not been written yet, in a
+        shuffled order (and finalise the scale for sharded storage) - the way
+        a conversion fills a scale."""
+        si = s % len(self.info["scales"])
+        sc = self.scale(si)
+        if self.sharded and (si in self.closed or self.open_scale not in (
+                None, si)):
+            return
+        grid = [cc for cc in ds.chunk_coords_list(sc["size"],
+                                                  sc["chunk_sizes"][0])
+                if (si, cc) not in self.model]
+        if len(grid) > 64:
+            grid = grid[:64]
+        np.random.default_rng(seed).shuffle(grid)
+        for j, cc in enumerate(grid):
+            arr = self.content(sc, cc, seed + j)
+            try:
+                self.pio.write_chunk(arr.copy(), sc["key"], cc)
+            except Exception as exc:
+                self.fail("write_chunk(%s, %s) failed while filling the "
+                          "scale: %s %s" % (sc["key"], cc,
+                                            type(exc).__name__, exc))
+            self.model[(si, cc)] = arr
+            self.written_since_reopen.add((si, cc))
+        if self.sharded and grid:
+            self.open_scale = si
+            self.pio.accessor.close()
+            self.closed.add(si)
+            self.open_scale = None
+            self.flags.add("closed_scale")
+        self.flags.add("filled_scale")
+
     @rule(s=st.integers(0, 2), p=st.integers(0, 10 ** 6))
     @logged
     def read(self, s, p):
@@ -413,5 +448,5 @@ def replay(ctx, history):
 
 SUBS = [Sub("machine", run, replay, quick=400, thorough=6000,
             min_per_shard=10),
-        Sub("machine_large", run_large, replay, quick=42, thorough=700,
+        Sub("machine_large", run_large, replay, quick=28, thorough=700,
             min_per_shard=3)]
